@@ -64,8 +64,15 @@ Proof.
     change (reserved (start s k)) with (reserved s) in MR. rewrite MR in GU. cbn in GU. exact GU.
   - apply GEN. apply wp_set_reserved; [exact HS|].
     intros Hb RO. specialize (GU Hb). unfold guard_unreserve in GU.
-    change (ronly (start s k)) with (ronly s) in RO. rewrite RO in GU. cbn in GU.
-    now apply existsb_false_filter.
+    change (ronly (start s k)) with (ronly s) in RO. rewrite RO in GU. cbv zeta in GU. cbn [negb andb] in GU.
+    change (reserved (start s k)) with (reserved s).
+    destruct (filter (fun p => negb (memN p ps)) (reserved s)) as [|r0 rs] eqn:REM; [now left|right].
+    cbn [negb andb] in GU.
+    destruct (filter (fun p => negb (memN p (reserved s))) ps) as [|i0 ins] eqn:INS; cbn [negb orb] in GU; [|discriminate GU].
+    split; [reflexivity|]. intros p Hp. change (at_capacity (start s k) p) with (at_capacity s p).
+    destruct (at_capacity s p) eqn:AC; [|reflexivity].
+    assert (X : existsb (at_capacity s) (r0 :: rs) = true) by (apply existsb_exists; exists p; split; assumption).
+    congruence.
   - eapply wp_conseq. apply (wp_report b (connected_set s) delta ps (start s k) HS WF).
     intros e s' ((H1 & F1) & R1). split; [exact H1|]. split; [exact (F0_trans _ _ _ FS F1)|].
     intros q. rewrite R1. reflexivity.
